@@ -401,6 +401,7 @@ func newC01(sc *C01Script, o *sim.Outcome) *c01run {
 	r.mRand = sim.NewRand(sc.Cfg.SeedA ^ 0x5a5a5a5a)
 	rnd := func(n int) []byte { b := make([]byte, n); r.mRand.Read(b); return append([]byte{}, b...) }
 	r.m = ref.NewParty(uint16(sc.Cfg.V), refKey(sc.KeyM), rnd)
+	r.m.PadFirst, r.m.FirstKeyID = sc.Cfg.RPad, uint32(sc.Cfg.RKid)
 	s.Obs.Long[2] = r.m.Key.PubBytes()
 	r.fps[0] = ref.Fingerprint(s.Obs.Long[0])
 	r.fps[1] = ref.Fingerprint(s.Obs.Long[1])
